@@ -21,8 +21,8 @@ MC_CONSTS = {
     # name: (cfg text constants)
     "quick_plain": dict(MaxLen=6, NodeToks="Nodes3", SymToks="SymQuick", RingToks="Rings3",
                         MultCounts="NoMult", MaxDepth=2, MaxOpen=2, EmitAll="FALSE"),
-    "thorough_plain": dict(MaxLen=7, NodeToks="Nodes3", SymToks="SymQuick", RingToks="Rings3",
-                           MultCounts="NoMult", MaxDepth=3, MaxOpen=2, EmitAll="FALSE"),
+    "thorough_plain": dict(MaxLen=8, NodeToks="Nodes3", SymToks="SymQuick", RingToks="Rings3",
+                           MultCounts="NoMult", MaxDepth=2, MaxOpen=2, EmitAll="FALSE"),
     "quick_mult": dict(MaxLen=7, NodeToks="Nodes2", SymToks="SymQuick", RingToks="Rings1",
                        MultCounts="Mult2", MaxDepth=2, MaxOpen=1, EmitAll="FALSE"),
     "thorough_mult": dict(MaxLen=8, NodeToks="Nodes2", SymToks="SymQuick", RingToks="Rings1",
